@@ -662,6 +662,18 @@ def str_decode(ex, st, node, recv, args, kwargs):
         r = f(t)
         st.assume(z3.Implies(ascii_, r == t))
         return VStr(r, TStr())
+    a = args[0] if args else kwargs.get('encoding')
+    if a is not None and isinstance(a, (VStr, VOpt)) and codec is None:
+        # symbolic codec name: LookupError unless valid_codec(name); UnicodeDecodeError only in strict mode
+        a = a.val if isinstance(a, VOpt) else a
+        ok = VALID_CODEC(a.term)
+        ex.may_raise(st, 'LookupError', node, z3.Not(ok), ok, 'unknown codec')
+        if strict: ex.may_raise(st, 'UnicodeDecodeError', node, z3.FreshBool('decfail'), z3.BoolVal(True), 'decode(symbolic codec, strict)')
+        else:
+            lenient = z3.Or(*[errors.term == z3.StringVal(m_) for m_ in ('replace', 'ignore', 'surrogateescape', 'backslashreplace')])
+            if not z3.is_true(z3.simplify(lenient)):
+                ex.may_raise(st, 'UnicodeDecodeError', node, z3.And(z3.Not(lenient), z3.FreshBool('decfail')), z3.BoolVal(True), 'decode(symbolic codec, error mode not lenient)')
+        return VStr(z3.Function('dec_dyn', z3.StringSort(), z3.StringSort(), z3.StringSort())(t, a.term), TStr())
     ex.may_raise(st, 'UnicodeDecodeError', node, z3.FreshBool('decfail'), z3.BoolVal(True), 'decode(?)')
     ex.may_raise(st, 'LookupError', node, z3.FreshBool('nocodec'), z3.BoolVal(True), 'unknown codec')
     return VStr(z3.FreshConst(z3.StringSort(), 'decoded'), TStr())
